@@ -30,7 +30,7 @@ class Device:
     k-th operation completes with.  stall_in_error: spec behaviour (any DNLOAD while in dfuERROR is stalled)."""
 
     def __init__(self, variant='4', pattern_seed=1, busy=None, final_delay=None, errors=None, start_error=False,
-                 stall_in_error=True, default_busy=(0,), sn=None):
+                 stall_in_error=True, default_busy=(0,), sn=None, error_state=ERROR):
         self.pages = VARIANTS[variant]
         real = (sn or ('3C' + variant + 'J')).encode('utf-8')
         self.serial_number = real.decode('utf-16-le')
@@ -43,6 +43,7 @@ class Device:
         self.default_busy = list(default_busy)
         self.errors = errors or {}
         self.stall_in_error = stall_in_error
+        self.error_state = error_state      # state announced together with an error status (nonconforming devices keep dfuDNLOAD-IDLE)
         self.state = ERROR if start_error else IDLE
         self.status = 14 if start_error else 0
         self.now = 0.0
@@ -130,13 +131,16 @@ class Device:
             if err is None:
                 err = self.apply(op)
             if err:
-                self.state, self.status = ERROR, err
+                self.state, self.status = self.error_state, err
                 self.error_reports.append((k, err))
             else:
                 self.state, self.status = DNLOAD_IDLE, 0
             delay = self.final_delay.get(k, 0)
         self.not_before = self.now + delay / 1000.0
-        return struct.pack('<BBBBBB', self.status, delay & 0xff, (delay >> 8) & 0xff, (delay >> 16) & 0xff, self.state, 0)
+        reply = struct.pack('<BBBBBB', self.status, delay & 0xff, (delay >> 8) & 0xff, (delay >> 16) & 0xff, self.state, 0)
+        if self.status and self.state != ERROR:
+            self.status = 0          # the nonconforming device reports the failure once and carries on
+        return reply
 
     def apply(self, op):
         wValue, d = op
